@@ -18,6 +18,8 @@ type GenOpts struct {
 	Motifs      []string
 	NoExcRel    bool
 	Detach      float64 // probability of a handler that detaches a binding
+	FinalFaults float64 // share of faults placed in State/End handlers
+	WideOps     float64 // share of ops calling 3..4 states
 }
 
 var baseNames = []string{"A", "B", "C", "D", "F", "G", "H", "K"}
@@ -267,6 +269,15 @@ func hnamesFor(s *Schema, r *rand.Rand, k int) []string {
 	return out
 }
 
+func genStatesWide(r *rand.Rand, n int) []int {
+	k := 3 + r.Intn(2)
+	var out []int
+	for i := 0; i < k; i++ {
+		out = append(out, r.Intn(n))
+	}
+	return out
+}
+
 func genStates(r *rand.Rand, n int) []int {
 	k := 1
 	x := r.Float64()
@@ -354,6 +365,22 @@ func GenCase(r *rand.Rand, o GenOpts) Case {
 		if r.Float64() < o.Faults {
 			b := r.Intn(nb)
 			h := hnamesFor(s, r, 1)[0]
+			if r.Float64() < o.FinalFaults {
+				// a fault in a final handler, with the other final handlers defined
+				// so that completion is observable
+				if r.Intn(4) == 0 {
+					h = fmt.Sprintf("end:%d", r.Intn(n))
+				} else {
+					h = fmt.Sprintf("state:%d", r.Intn(n))
+				}
+				for i := 0; i < n; i++ {
+					lines = append(lines, fmt.Sprintf("rule %d state:%d * t", b, i))
+					if r.Intn(2) == 0 {
+						lines = append(lines, fmt.Sprintf("rule %d end:%d * t", b, i))
+					}
+				}
+				tag += "+finalfault"
+			}
 			act := "panic"
 			if r.Intn(3) == 0 {
 				act = "panicstr"
@@ -380,6 +407,9 @@ func GenCase(r *rand.Rand, o GenOpts) Case {
 	nops := 3 + r.Intn(o.MaxOps)
 	for i := 0; i < nops; i++ {
 		st := showList(genStates(r, n))
+		if r.Float64() < o.WideOps {
+			st = showList(genStatesWide(r, n))
+		}
 		if len(s.Health) > 0 && r.Float64() < 0.35 {
 			hs := []int{s.Health[0]}
 			if r.Float64() < 0.6 {
